@@ -45,3 +45,16 @@ def hygiene_ok(out):
         if line and py_is_ws(line[-1]):
             return False
     return True
+
+
+def validate_corpus(S, name, found, sweep):
+    """Native confirmation corpora must agree with the solver's verdict on the checked tree: when the solver-decided units
+    report nothing, a corpus hit means the corpus or its oracle is wrong (or a unit is missing) - never a pass, never a violation."""
+    if found:
+        return
+    w = sweep()
+    if isinstance(w, list):
+        w = w[0] if w else None
+    S.validation['native_corpus:' + name] = 'clean' if not w else w['what']
+    if w:
+        S.inconclusive.append('%s: the native corpus shows a deviation the solver-decided units do not explain: %s' % (name, w['what']))
